@@ -142,7 +142,8 @@ def run_checks(tree, props):
 
 def round2(pid, keep):
     """/tmp/seed2/<pid>_out: bug1.diff bug2.diff benign1.diff benign2.diff demo1.py demo2.py notes.txt"""
-    outdir = '/tmp/seed2/%s_out' % pid
+    outdir = '/verif/.r2/%s_out' % pid
+    only = 'benign' if '--benign-only' in sys.argv else ('bug' if '--bugs-only' in sys.argv else None)
     os.makedirs('/tmp/seedchk', exist_ok=True)
     clean = '/tmp/seedchk/%s_clean' % pid
     sh(['git', '-C', '/repo', 'worktree', 'remove', '--force', clean])
@@ -152,6 +153,8 @@ def round2(pid, keep):
     try:
         for kind, i in (('bug', 1), ('bug', 2), ('benign', 1), ('benign', 2)):
             d = '%s/%s%d.diff' % (outdir, kind, i)
+            if only and kind != only:
+                continue
             if not os.path.exists(d):
                 print('%s-%s%d  MISSING' % (pid, kind, i))
                 continue
